@@ -198,7 +198,8 @@ func Lex(s string, d Dialect) []Tok {
 			} else {
 				emit(TNumber, j, "")
 			}
-		case isWordStart(c):
+		case isWordStart(c) || (c == '$' && i+1 < len(s) && isWordStart(s[i+1])):
+			// "$name": some dialects allow '$' in identifiers; function names are passed through by name
 			j := i + 1
 			for j < len(s) && isWordPart(s[j]) {
 				j++
